@@ -194,8 +194,8 @@ func minimise(t *testing.T, e Engine, prop, tier string, seed uint64, res *RunRe
 	orig := res.Tape
 	class := res.Violation.Oracle + "|" + res.Violation.Key
 	runs := 0
-	maxRuns := envInt("VERIF_SHRINK_RUNS", 120)
-	deadline := time.Now().Add(time.Duration(envInt("VERIF_SHRINK_S", 90)) * time.Second)
+	maxRuns := envInt("VERIF_SHRINK_RUNS", 400)
+	deadline := time.Now().Add(time.Duration(envInt("VERIF_SHRINK_S", 150)) * time.Second)
 	fails := func(ds []Decision) bool {
 		if runs >= maxRuns || time.Now().After(deadline) {
 			return false
@@ -205,6 +205,7 @@ func minimise(t *testing.T, e Engine, prop, tier string, seed uint64, res *RunRe
 		return r.Violation != nil && r.Violation.Oracle+"|"+r.Violation.Key == class && r.HarnessErr == ""
 	}
 	best := Shrink(orig, fails)
+	fmt.Fprintf(os.Stderr, "shrink: %d -> %d decisions in %d runs\n", len(orig), len(best), runs)
 	// Re-run the minimised tape once more, recording the exact tape it consumes, for strict replay.
 	final := e.Run(t, prop, tier, ReplayTape(best, false), true)
 	rep := &Replay{Engine: e.Name(), Property: prop, Tier: tier, Seed: seed, OrigLen: len(orig)}
@@ -231,37 +232,67 @@ func tail(s []string, n int) []string {
 	return s[len(s)-n:]
 }
 
-// Shrink is a small ddmin over the decision tape: truncate, delete chunks, zero chunks.
+// Shrink minimises a decision tape. Engines emit rectangular tapes: a configuration prefix
+// (kinds "cfg.*") followed by steps that each start with a decision of kind "step.fault" and consume
+// a fixed number of decisions, so steps can be deleted and faults zeroed without misaligning the
+// rest. Passes: (1) truncate whole steps from the end, (2) zero fault decisions (ddmin), (3) delete
+// chunks of whole steps (ddmin), (4) zero the remaining scheduling decisions chunk-wise.
 func Shrink(orig []Decision, fails func([]Decision) bool) []Decision {
 	best := append([]Decision(nil), orig...)
-	// 1. truncate the tail (an exhausted tape answers 0 = benign)
-	for cut := len(best) / 2; cut >= 1; cut /= 2 {
-		for len(best) > cut {
-			cand := append([]Decision(nil), best[:len(best)-cut]...)
+	stepStarts := func(t []Decision) []int {
+		var st []int
+		for i, d := range t {
+			if d.K == "step.fault" {
+				st = append(st, i)
+			}
+		}
+		return st
+	}
+	// 1. truncate steps from the end
+	for {
+		st := stepStarts(best)
+		if len(st) < 2 {
+			break
+		}
+		progressed := false
+		for cut := len(st) / 2; cut >= 1; cut /= 2 {
+			st = stepStarts(best)
+			if cut >= len(st) {
+				continue
+			}
+			cand := append([]Decision(nil), best[:st[len(st)-cut]]...)
 			if fails(cand) {
 				best = cand
-			} else {
+				progressed = true
 				break
 			}
 		}
+		if !progressed {
+			break
+		}
 	}
-	// 2. zero chunks (fault -> no fault, reorder -> FIFO)
-	for size := len(best) / 2; size >= 1; size /= 2 {
-		for i := 0; i+size <= len(best); i += size {
-			allZero := true
-			for j := i; j < i+size; j++ {
-				if best[j].V != 0 {
-					allZero = false
+	// 2. zero fault decisions: first all-but-chunks (ddmin style)
+	faultIdx := func(t []Decision) []int {
+		var ix []int
+		for i, d := range t {
+			if d.K == "step.fault" && d.V != 0 {
+				ix = append(ix, i)
+			}
+		}
+		return ix
+	}
+	for size := (len(faultIdx(best)) + 1) / 2; size >= 1; size /= 2 {
+		ix := faultIdx(best)
+		for i := 0; i < len(ix); i += size {
+			cand := append([]Decision(nil), best...)
+			any := false
+			for j := i; j < i+size && j < len(ix); j++ {
+				if cand[ix[j]].V != 0 {
+					cand[ix[j]].V = 0
+					any = true
 				}
 			}
-			if allZero {
-				continue
-			}
-			cand := append([]Decision(nil), best...)
-			for j := i; j < i+size; j++ {
-				cand[j].V = 0
-			}
-			if fails(cand) {
+			if any && fails(cand) {
 				best = cand
 			}
 		}
@@ -269,10 +300,21 @@ func Shrink(orig []Decision, fails func([]Decision) bool) []Decision {
 			break
 		}
 	}
-	// 3. delete chunks
-	for size := len(best) / 4; size >= 1; size /= 2 {
-		for i := 0; i+size <= len(best); {
-			cand := append(append([]Decision(nil), best[:i]...), best[i+size:]...)
+	// 3. delete chunks of whole steps
+	for frac := 2; ; frac *= 2 {
+		st := stepStarts(best)
+		size := len(st) / frac
+		if size < 1 {
+			break
+		}
+		for i := 0; i+size <= len(stepStarts(best)); {
+			st = stepStarts(best)
+			from := st[i]
+			to := len(best)
+			if i+size < len(st) {
+				to = st[i+size]
+			}
+			cand := append(append([]Decision(nil), best[:from]...), best[to:]...)
 			if fails(cand) {
 				best = cand
 			} else {
@@ -281,6 +323,22 @@ func Shrink(orig []Decision, fails func([]Decision) bool) []Decision {
 		}
 		if size == 1 {
 			break
+		}
+	}
+	// 4. zero other non-zero decisions chunk-wise (reorder -> FIFO etc.), skipping the cfg prefix
+	for size := len(best) / 2; size >= 4; size /= 2 {
+		for i := 0; i+size <= len(best); i += size {
+			cand := append([]Decision(nil), best...)
+			any := false
+			for j := i; j < i+size; j++ {
+				if cand[j].V != 0 && len(cand[j].K) > 5 && cand[j].K[:5] == "step." && cand[j].K != "step.fault" {
+					cand[j].V = 0
+					any = true
+				}
+			}
+			if any && fails(cand) {
+				best = cand
+			}
 		}
 	}
 	return best
@@ -294,6 +352,17 @@ func replayFile(t *testing.T, e Engine, path, out string) {
 	var rep Replay
 	if err := json.Unmarshal(b, &rep); err != nil {
 		t.Fatalf("HARNESS: bad replay file: %v", err)
+	}
+	if os.Getenv("VERIF_RESHRINK") != "" {
+		r0 := e.Run(t, rep.Property, rep.Tier, ReplayTape(rep.Tape, false), false)
+		if r0.Violation == nil {
+			t.Fatalf("HARNESS: replay does not reproduce; cannot re-shrink")
+		}
+		r0.Tape = rep.Tape
+		nr := minimise(t, e, rep.Property, rep.Tier, rep.Seed, r0)
+		b, _ := json.MarshalIndent(nr, "", " ")
+		os.WriteFile(filepath.Join(out, "reshrunk.json"), b, 0o644)
+		return
 	}
 	tp := ReplayTape(rep.Tape, true)
 	res := e.Run(t, rep.Property, rep.Tier, tp, true)
